@@ -65,6 +65,11 @@ CbCheck(s, ev, sid, A0, A1, submitted, maybe) ==
         \cup F(must \subseteq CbEsis(ev), "C11", "cb-missing-for-decoded")
         \cup F(CbEsis(ev) \subseteq may \cup (CbEsis(ev) \cap s.rcvd), "C11", "cb-for-undecoded")
 
+(* C15: the answer to OF_CRTL_LDPC_STAIRCASE_IS_LAST_SYMBOL_NULL is a property of the configured code: asked again *)
+(* at any later point of the session (after symbols were submitted, after repair symbols were built) it is the same *)
+ClaimStable(s0, ev) ==
+    F(("lastnull" \in DOMAIN ev /\ s0.claimed # -1) => ev.lastnull = s0.claimed, "C15", "lastnull-claim-changed-during-session")
+
 Common(ev) ==
     F(ev.app_ok = 1, "C07", "app-buffer-modified")
     \cup F(ev.ff = 0, "C07,C08", "lib-freed-foreign-block")
@@ -91,7 +96,8 @@ DoSetParams(s0, ev) ==
                          \* the decoder may count the last repair symbol as received (a zero symbol) only when the
                          \* claim is true of these equations (C15 judges the claim itself; here a false claim simply
                          \* is not a received symbol, so whatever the decoder derives from it is flagged where it shows)
-                         !.claim = ("lastnull" \in DOMAIN ev) /\ ev.lastnull = 1 /\ TrulyNull(H, ev.k + ev.r)]
+                         !.claim = ("lastnull" \in DOMAIN ev) /\ ev.lastnull = 1 /\ TrulyNull(H, ev.k + ev.r),
+                         !.claimed = IF "lastnull" \in DOMAIN ev THEN ev.lastnull ELSE -1]
         cwFails ==
             IF ev.st = OK /\ "cw" \in DOMAIN ev /\ ev.role = "dec" /\ ev.codec \in {3, 5}
             THEN F(IsCodeword(H, [ e \in 0 .. (s1.n - 1) |-> Vec(ev.cw[e + 1]) ]), "INFRA", "driver-codeword-inconsistent")
@@ -162,6 +168,7 @@ DoComplete(s0, ev) ==
           fails |-> F(c => ev.val = 1, tags, "complete-false-but-all-sources-determined")
                     \cup F(~c => ev.val = 0, tags, "complete-true-but-not-recoverable")
                     \cup F(s0.everComplete => ev.val = 1, "C10", "complete-reverted")
+                    \cup ClaimStable(s0, ev)
                     \cup Common(ev) ]
 
 EntryOK(s0, e, i) ==
@@ -256,6 +263,7 @@ DoBuild(s0, ev) ==
           fails |-> F(s0.phase = "configured" /\ (s0.role = "enc" \/ s0.both), "INFRA", "driver-protocol")
                     \cup F(rep => s0.npos >= s0.k, "INFRA", "driver-replicated-payload-shorter-than-k")
                     \cup F(IsBin(s0) => HaveEq(s0), "INFRA", "no-parity-check-equations-in-trace")
+                    \cup ClaimStable(s0, ev)
                     \cup F(ev.st = OK, tag, "build-status")
                     \cup F(ev.st = OK => "o" \in DOMAIN ev /\ ev.o = (IF ev.slot = "null" THEN "lib" ELSE "app"), tag, "build-output-slot")
                     \cup F(ev.st = OK => valueOk, tag, "repair-symbol-not-canonical")
